@@ -311,6 +311,12 @@ def generate(rng, knobs=None):
                     vals[k - k0, :] = np.nan
             if maybe and rng.random() < 0.3:   # a hole in one variant only
                 vals[maybe[0] - k0, 0] = np.nan
+            if not b.pos[x] and rng.random() < 0.3:
+                # an exogenized level of exactly 0.0 is a value like any other (added after a seeded change tested the implied
+                # value for truthiness)
+                for k in need[x]:
+                    if 0 <= k - k0 < vals.shape[0] and rng.random() < 0.5 and np.all(np.isfinite(vals[k - k0, :])):
+                        vals[k - k0, :] = 0.0
             if all(w == "maybe" for w in need[x].values()) and rng.random() < 0.25:
                 cut = max(0, min(need[x])) + int(rng.integers(0, 2))
                 vals = vals[:cut - k0, :]
@@ -378,9 +384,13 @@ def generate(rng, knobs=None):
         "span_form": "span" if rng.random() < 0.7 else "tuple",
         "silent": bool(rng.random() < 0.8),
     }
+    # history of the model object: the equations are rearranged (reorder_equations / sequentialize) before the simulation
+    reorder = None
+    if n >= 2 and rng.random() < 0.25:
+        reorder = "sequentialize" if rng.random() < 0.4 else [int(v) for v in rng.permutation(n)]
     return {
         "kind": "gen", "mode": b.mode, "spec": spec, "source": source, "start": _start(rng), "T": T,
-        "data": data, "plan": plan, "opts": opts, "orders": orders,
+        "data": data, "plan": plan, "opts": opts, "orders": orders, "reorder": reorder,
     }
 
 
